@@ -444,6 +444,28 @@ func (e EvmEngine) genC08(r *Run) Step {
 		mod := []string{erc20types.ModuleName, erc20types.ModuleName, "eth", "distribution"}[r.Rng.IntN(4)]
 		if r.Pct(50) {
 			denom = "tst"
+			// coins of the externally-owned token only exist after a withdraw-and-redeposit cycle: drive it
+			holder := -1
+			for i := 0; i < st.NUsers; i++ {
+				if w.App.BankKeeper.GetBalance(w.Ctx(), w.Key("user", i).Acc(), "tst").Amount.IsPositive() {
+					holder = i
+				}
+			}
+			if holder >= 0 {
+				u, signer = holder, KeyName("user", holder)
+			} else {
+				alias := cctypes.NewBridgeDenom(ch.Name, ExtAddrStr(ch.Name, tokenContract(ch.Name, "TST")))
+				stock := w.App.BankKeeper.GetBalance(w.Ctx(), authtypes.NewModuleAddress(ch.Name), alias).Amount
+				if stock.IsPositive() {
+					a := stock.Int64()
+					if a > 2000 {
+						a = 1 + r.Rng.Int64N(2000)
+					}
+					return Step{Kind: "ext", A: A("chain", ch.Name, "op", "send_to_fx", "symbol", "TST", "user", r.Rng.IntN(st.NUsers), "amount", a, "target", "")}
+				}
+				return blk(pc("token:TST", "approve", cctypes.GetAddress().Hex(), "1000000000000000"),
+					pc("crosschain", "crossChain", "$TST", fmt.Sprintf("$ext%d", r.Rng.IntN(5)), fmt.Sprint(100+r.Rng.IntN(3000)), "2", "$target", ""))
+			}
 		}
 		amt := int64(1 + r.Rng.IntN(3000))
 		if bal := w.App.BankKeeper.GetBalance(w.Ctx(), w.Key("user", u).Acc(), denom).Amount; bal.IsPositive() && bal.IsInt64() && bal.Int64() < amt {
